@@ -2,6 +2,8 @@ package sym
 
 import (
 	"fmt"
+
+	"golang.org/x/tools/go/ssa"
 )
 
 // Thread is a green thread of the interpreted program. Each runs in its own
@@ -19,6 +21,7 @@ type Thread struct {
 	completed *selResult
 	top       *frame
 	name      string
+	curIns    ssa.Instruction
 }
 
 type selCase struct {
